@@ -180,6 +180,20 @@ def run(tier):
     for text, g in seeds:
         cases.append({'text': text, 'globals': g, 'max': 2000, 'want_model': True})
         meta.append('seed')
+    # an include statement INSIDE a function body: the included statements run in the GLOBAL scope (their assignments write the globals, their
+    # reads do not see the call's parameters or locals), and the call's own locals are untouched
+    inc_file = "x = 'inc'\ny = 'incy'\np = 'incp'\nsystemLog('inc sees p=' + p + ' x=' + x)\n"
+    inc_cases = [
+        ("function ff(p):\n    x = 'local'\n    include 'inc.bare'\n    return arrayNew(p, x, y)\nendfunction\np = 'gp'\nr = ff('arg')\nreturn arrayNew(r, x, y, p)\n",
+         [['arg', 'local', 'incy'], 'inc', 'incy', 'incp'], ['inc sees p=incp x=inc']),
+        ("function ff(p, x):\n    if p:\n        include 'inc.bare'\n    endif\n    return arrayNew(p, x)\nendfunction\nr1 = ff(0, 1)\nr2 = ff(2, 3)\nreturn arrayNew(r1, r2, x, p)\n",
+         [[0.0, 1.0], [2.0, 3.0], 'inc', 'incp'], ['inc sees p=incp x=inc']),
+        ("function outer(p):\n    return inner(p) + ':' + p\nendfunction\nfunction inner(x):\n    include 'inc.bare'\n    return x\nendfunction\nreturn arrayNew(outer('a'), p)\n",
+         ['a:a', 'incp'], ['inc sees p=incp x=inc']),
+    ]
+    for text, want, wlog in inc_cases:
+        cases.append({'text': text, 'globals': {}, 'max': 2000, 'files': {'inc.bare': inc_file}, 'want_model': True})
+        meta.append(('include-in-function', want, wlog))
     n = 900 if tier == 'quick' else 6000
     for _ in range(n):
         pool = interp.Pool()
@@ -202,6 +216,12 @@ def run(tier):
                 c[where] = {alias: spec}
                 cases.append(c)
                 meta.append(('shadow-value', where, None))
+        # ... and a name bound to NULL is still bound: the call is the error `Undefined function`, never the built-in
+        for where in ('locals', 'globals'):
+            c = {'expr_text': f'{alias}({arg})', 'globals': {}, 'locals': None, 'builtins': True}
+            c[where] = {alias: ['null']}
+            cases.append(c)
+            meta.append(('shadow-null', where, alias))
     # the LAYOUT of a parameter list is not part of the parameter names: the same program with blanks around the commas and inside the
     # parentheses binds the same arguments (compared with its own compact spelling)
     layout_base = len(cases)
@@ -243,6 +263,17 @@ def run(tier):
                 chk.oracle_fail.append({'class': 'bound-non-function-does-not-win-over-built-in', **info, 'bound_in': m[1], 'expected': ['null'],
                                         'got': res.get('res') or res.get('rt')})
             continue
+        if tag == 'include-in-function':
+            got = interp.plain_of_tree(res['res']) if 'res' in res else None
+            if got != m[1] or res.get('log') != m[2]:
+                chk.oracle_fail.append({'class': 'include-inside-a-function-does-not-run-in-global-scope', **info, 'expected': {'res': m[1], 'log': m[2]},
+                                        'got': {k: res.get(k) for k in ('res', 'rt', 'log')}})
+            continue
+        if tag == 'shadow-null':
+            if res.get('rt') != f'Undefined function "{m[2]}"':
+                chk.oracle_fail.append({'class': 'name-bound-to-null-does-not-win-over-built-in', **info, 'bound_in': m[1],
+                                        'expected': {'rt': f'Undefined function "{m[2]}"'}, 'got': res.get('res') or res.get('rt')})
+            continue
         if tag == 'shadow':
             want = 1.0 if m[1] in ('locals', 'globals') else m[2]
             got = interp.plain_of_tree(res['res']) if 'res' in res else None
@@ -280,14 +311,16 @@ def run(tier):
 
     corr_n = declined = 0
     if model_ok:
+        inc_idx = [i for i, m in enumerate(meta) if isinstance(m, tuple) and m[0] == 'include-in-function' and 'model' in impl[i] and 'host' not in impl[i]]
         idx = [i for i, m in enumerate(meta) if m in ('seed', 'program') and 'model' in impl[i] and 'host' not in impl[i]]
         budget = 350 if tier == 'quick' else 3000
         if len(idx) > budget:
             idx = idx[:6] + sorted(r.sample(idx[6:], budget - 6))
+        idx = inc_idx + idx
         terms, used = [], []
         for i in idx:
             try:
-                t = interp.run_term(cases[i], impl[i], impl[i]['model'], fuel=8000)
+                t = interp.run_term(cases[i], impl[i], impl[i]['model'], fuel=8000, files=cases[i].get('files'))
             except (interp.Unencodable, ValueError):
                 continue
             if len(t) > 60000:
